@@ -110,7 +110,7 @@ def leaves(n):
         "eig_sym", "eig_pd", "softabs_diag",
         "blockdiag_square", "blockdiag_sym", "blockdiag_pd",
         "lowrank_square", "lowrank_square_neg", "lowrank_sym", "lowrank_sym_neg", "lowrank_pd", "lowrank_pd_neg",
-        "lowrank_square_cap", "lowrank_pd_inner",
+        "lowrank_square_cap", "lowrank_pd_inner", "lowrank_square_k2", "lowrank_square_k2_cap",
     ]
     if n == 2:
         L += ["softabs_dense"]
@@ -250,6 +250,21 @@ def make_leaf(M, mk, kind, n, tag="a"):
         R[:1, :1] = r1
         R[1:, 1:] = r2
         return cls((b1, b2)), R
+    if kind.startswith("lowrank_square_k2"):
+        # rank-2 update of a 2x2 matrix (dim_inner = 2: the capacitance matrix is a genuine 2x2, not its own transpose)
+        if n != 2:
+            raise Skip("rank-2 leaf defined for n = 2")
+        Lf = mk.arr(p + "_lf", (2, 2))
+        Rf = mk.arr(p + "_rf", (2, 2))
+        d = mk.arr(p + "_sq", 2, "nonzero")
+        kk = mk.arr(p + "_in", 2, "nonzero")
+        dense = np.diag(d) + Lf @ np.diag(kk) @ Rf
+        mk.require(_nz(det(dense)))
+        cap = None
+        if kind.endswith("_cap"):
+            cap = M.DenseSquareMatrix(np.diag(1 / kk) + Rf @ np.diag(1 / d) @ Lf)
+        return M.SquareLowRankUpdateMatrix(M.DenseRectangularMatrix(Lf), M.DenseRectangularMatrix(Rf), M.DiagonalMatrix(d),
+                                           M.DiagonalMatrix(kk), cap), dense
     if kind.startswith("lowrank"):
         k = 1
         neg = kind.endswith("_neg")
